@@ -135,6 +135,17 @@ func TestVerifC44Users(t *testing.T) {
 		scan("update", st, rr.Body.Bytes())
 	}
 
+	// updates that change nothing (name only; empty permission list) must not echo the stored credential either
+	for i := 0; i < n; i++ {
+		name := fmt.Sprintf("canaryuser%d", i)
+
+		for _, body := range []map[string]any{{"name": name}, {"name": name, "permissions": []string{}}, {}} {
+			rr := httptest.NewRecorder()
+			st := UpdateUserHandler(session(name), rr, request(http.MethodPatch, "/admin/users/"+name, body))
+			scan("update-noop", st, rr.Body.Bytes())
+		}
+	}
+
 	rr = httptest.NewRecorder()
 	st = GetUserHandler(session(defs.DefaultAdminUsername), rr, request(http.MethodGet, "/admin/users/admin", nil))
 	scan("get-admin", st, rr.Body.Bytes())
